@@ -916,15 +916,15 @@ func (c *Ctx) mapStoreSafeAt(fd *ast.FuncDecl, as ast.Node, ix *ast.IndexExpr) b
 // auditedPanicSites: panic-capable constructs reachable from the expand/resolve entry points
 // that were read and accepted, one reason each. Keyed by function/kind/detail, never by line.
 var auditedPanicSites = map[string]string{
-	"normalizeURI/must/MustCreateRef(<printed URL>)":               "argument is the String() of a URL that url.Parse already accepted (or the repaired empty URL): re-parsing cannot fail",
-	"normalizeRef/must/MustCreateRef(<normalizeURI result>)":       "normalizeURI returns the String() of a parsed URL",
-	"rebase/must/MustCreateRef(<printed URL>)":                     "newBase is assembled from components of parsed URLs",
+	"normalizeURI/must/MustCreateRef(<printed URL>)":                            "argument is the String() of a URL that url.Parse already accepted (or the repaired empty URL): re-parsing cannot fail",
+	"normalizeRef/must/MustCreateRef(<normalizeURI result>)":                    "normalizeURI returns the String() of a parsed URL",
+	"rebase/must/MustCreateRef(<printed URL>)":                                  "newBase is assembled from components of parsed URLs",
 	"schemaLoader.transitiveResolver/must/MustCreateRef(<base path parameter>)": "basePath is a base location already normalised by normalizeBase (a printed URL)",
-	"MustLoadJSONSchemaDraft04/panic/":                           "embedded meta-schema; decoding a constant asset that the test-suite loads",
-	"MustLoadSwagger20Schema/panic/":                             "embedded meta-schema; decoding a constant asset that the test-suite loads",
-	"defaultResolutionCache/must/MustLoadSwagger20Schema()":      "see MustLoadSwagger20Schema",
-	"defaultResolutionCache/must/MustLoadJSONSchemaDraft04()":    "see MustLoadJSONSchemaDraft04",
-	"schemaLoader.isCircular/nil-map-store/r.context.circulars":  "circulars is made in newResolverContext, the only constructor of resolverContext (checked by ctx-private)",
+	"MustLoadJSONSchemaDraft04/panic/":                                          "embedded meta-schema; decoding a constant asset that the test-suite loads",
+	"MustLoadSwagger20Schema/panic/":                                            "embedded meta-schema; decoding a constant asset that the test-suite loads",
+	"defaultResolutionCache/must/MustLoadSwagger20Schema()":                     "see MustLoadSwagger20Schema",
+	"defaultResolutionCache/must/MustLoadJSONSchemaDraft04()":                   "see MustLoadJSONSchemaDraft04",
+	"schemaLoader.isCircular/nil-map-store/r.context.circulars":                 "circulars is made in newResolverContext, the only constructor of resolverContext (checked by ctx-private)",
 	// GOOS=windows only (normalizer_windows.go), analysed in the thorough tier
 	"fixWindowsURI/slice/drive[:1]": "dominated by len(drive) > 0",
 	"fixWindowsURI/index/drive[i]":  "loop `i := len(drive)-1; for i >= 0 && ...drive[i]...; i--`: the index test i >= 0 is the left operand of the same && and i starts at len-1",
